@@ -32,6 +32,20 @@ theorem conv_autopad_partial (A : Arith α) (hA : ZeroLaws A) (x w : Tensor α) 
       Equiv m s :=
   Proofs.Conv2.conv_autopad_partial A hA x w bias mode hm dil strides hWb hpx hpw hrank hdl hsl hdp hsp hk2 hneed s hs
 
+-- non-vacuity, 2-D: N = 2, C = 2, M = 2, a 3×4 image, a 2×2 kernel, strides (1, 2), SAME_LOWER (ONNX pads
+-- 1 0 0 0, output 3×2), with a bias: every hypothesis is discharged (a 1-D instance follows below)
+private def nv_A : Arith Int := ⟨0, (· + ·), (· * ·), (· - ·)⟩
+private def nv_x : Tensor Int := ⟨[2, 2, 3, 4], (List.range 48).map (fun (n : Nat) => (n : Int) - 20)⟩
+private def nv_w : Tensor Int := ⟨[2, 2, 2, 2], [1, 2, 3, 4, 5, 6, 7, 8, -1, 0, 1, 0, 2, -2, 3, -3]⟩
+private def nv_bias : Tensor Int := ⟨[2], [100, 200]⟩
+example :
+    ∃ m, convOp nv_A { autoPad := "SAME_LOWER", dilations := [1, 1], strides := [1, 2], pads := [] } nv_x nv_w (some nv_bias) = .ok m ∧
+      Equiv m ⟨[2, 2, 3, 2], [-148, -104, -200, -128, -56, 16, 177, 179, 199, 199, 199, 199,
+                               380, 424, 664, 736, 808, 880, 201, 203, 199, 199, 199, 199]⟩ :=
+  conv_autopad_partial nv_A ⟨Int.add_zero, Int.zero_mul, Int.mul_zero⟩ nv_x nv_w (some nv_bias) "SAME_LOWER" (Or.inr rfl) [1, 1] [1, 2]
+    rfl rfl (by intro b h; cases h; rfl) (by simp [Proofs.Pos, nv_x]) (by simp [Proofs.Pos, nv_w])
+    (by decide) (by decide) (by decide) (by decide) (by decide) (by decide) (by decide) _ (by decide)
+
 /-- auto_pad VALID is computed as SAME_UPPER (known finding conv.auto_pad_valid): whenever SAME_UPPER
 needs any padding the result differs from the ONNX value — witness -/
 theorem conv_autopad_valid_counterexample :
